@@ -216,6 +216,7 @@ package protocol
 // What a command object becomes on the wire is outside the verifier's reach (go-redis); the kind of command and
 // the options it carries are tracked as ghost state of the returned command (assumed for Command methods).
 //@ import redis "github.com/redis/go-redis/v9"
+//@ import entry "github.com/olric-data/olric/internal/kvstore/entry"
 //@ ghost field redis.StatusCmd.kind string
 
 //@ func (p *Put) Command(ctx context.Context) *redis.StatusCmd
@@ -239,10 +240,12 @@ package protocol
 //@   ensures #nil_iff: (result == nil) == (err == nil)
 //@   modifies nothing
 
+// A DM.PUTENTRY payload is an encoded entry: the receiving member stores the bytes as they are (PutRaw).
 //@ func (p *PutEntry) Command(ctx context.Context) *redis.StatusCmd
-//@   props C05
+//@   props C05 C04
 //@   trusted
 //@   requires #recv: p != nil
+//@   requires #payload_is_an_entry [C04]: entry.wfAt(elems(p.Value), off(p.Value), len(p.Value))
 //@   ensures #kind: result != nil && fresh(result) && result.kind == "dm.putentry"
 //@   modifies nothing
 
